@@ -22,7 +22,8 @@ namespace Yarel.Spec.Quirks
   `var t = a += 1 < 3` assigns `(a += 1) < 3`.
 * Q-P2 a second assignment target inside a compound assignment is rejected: `m += (n += 3)` is
   "Expected ')' after expression." at the inner operator (tests/scripts/operator/*_assign_precedence.yl).
-* Q-P3 `a[i] op= v` is not supported ("Expected ';' after expression." at the operator).
+* Q-P3 `a[i] op= v` is not supported ("Expected ';' after expression." at the operator); `a[i] = v` used as
+  a value is nil (SetItem leaves nil), unlike variable and property assignment, which yield `v`.
 * Q-P4 the body of a function shares the scope of its parameters, the body of `catch e {…}` shares the
   scope of `e` (`fn f(a) { var a; }` and `catch e { var e; }` are "already declared" errors); a script
   has the hidden local `self` in slot 0, a plain function a nameless one.
@@ -31,8 +32,8 @@ namespace Yarel.Spec.Quirks
 * Q-P6 `import "p"` without `as` binds the last path component; the synthetic name token has kind `Eof`,
   so an error reported at it says "at end" (`{ import "util"; import "util"; }`).
 * Q-P7 `for` with a missing loop variable returns without closing the scope it opened.
-* Q-P8 `#[a, b]` attributes live in a hash map: which unsupported attribute is reported first is
-  unspecified (the spec reports them in source order).
+* Q-P8 (gone) `#[a, b]` attributes lived in a randomly seeded hash map, so which unsupported attribute was
+  reported first changed from run to run; since F47 they are reported in source order, as the spec does.
 * Q-P9 at most 255 arguments / parameters / elements, 256 locals (slot 0 included), 256 captured
   variables, 65536 constants per function, jump distances limited (see deviation F9).
 * Q-P10 the interpolation handler consumes whatever token follows the last `${…}` without checking it.
